@@ -74,6 +74,8 @@ def _assigned_names(node: ast.AST) -> set[str]:
                 out.add(n.id)
         elif isinstance(n, ast.ExceptHandler) and n.name:
             out.add(n.name)
+        elif isinstance(n, ast.FunctionDef):
+            out.add(n.name)
     return out
 
 
@@ -94,6 +96,8 @@ _FALL, _RET, _ABRUPT = "fall", "ret", "abrupt"
 
 def _contains_return(stmts) -> bool:
     for st in stmts:
+        if isinstance(st, (ast.FunctionDef, ast.AsyncFunctionDef, ast.ClassDef)):
+            continue
         for n in [st, *walk_local(st)]:
             if isinstance(n, ast.Return):
                 return True
@@ -192,6 +196,12 @@ class _Subst(ast.NodeTransformer):
             return ast.copy_location(ast.Name(id=self.rename[n.id], ctx=n.ctx), n)
         return n
 
+    def visit_FunctionDef(self, n: ast.FunctionDef):
+        self.generic_visit(n)
+        if n.name in self.rename:
+            n.name = self.rename[n.name]
+        return n
+
     def visit_ExceptHandler(self, n: ast.ExceptHandler):
         self.generic_visit(n)
         if n.name and n.name in self.rename:
@@ -233,7 +243,7 @@ class Inliner:
             return None
         n_st = 0
         for n in walk_local(g.node):
-            if isinstance(n, (ast.Yield, ast.YieldFrom, ast.Global, ast.Nonlocal, ast.FunctionDef, ast.AsyncFunctionDef, ast.ClassDef)):
+            if isinstance(n, (ast.Yield, ast.YieldFrom, ast.Global, ast.Nonlocal, ast.AsyncFunctionDef, ast.ClassDef)):
                 return None
             if isinstance(n, ast.stmt):
                 n_st += 1
